@@ -243,6 +243,11 @@ func c18Case(c *mon.Ctx, r *mon.Rand) {
 		if len(st.calls) != 0 {
 			c.Violation("statsd-flush-calls-client", map[string]interface{}{"why": fmt.Sprint(st.calls)})
 		}
+		// what the reporter advertises does not depend on how the calls went
+		// (with a client that fails every call: a dozen errors in a row)
+		if cp := rep.Capabilities(); !cp.Reporting() || cp.Tagging() {
+			c.Violation("statsd-capabilities", map[string]interface{}{"why": fmt.Sprintf("after the history: capabilities reporting=%v tagging=%v", cp.Reporting(), cp.Tagging()), "case": desc()})
+		}
 	})
 	if c.WantSample() {
 		c.Sample(desc())
